@@ -143,8 +143,10 @@ def stage(unit, workdir, repo, verif):
         rel, name, pat = f[0], f[1], f[2]
         ln = find_fn_line(os.path.join(repo, rel), pat, f[3] if len(f) > 3 else None)
         if ln is None:
-            raise StagingError("function under test not found in current tree: %s in %s" % (name, rel))
-        finfo.append("%s:%d %s" % (rel, ln, name))
+            # informational only: if the function is really gone the harness stops compiling (exit 2)
+            finfo.append("%s:? %s (signature pattern not found in the current tree)" % (rel, name))
+        else:
+            finfo.append("%s:%d %s" % (rel, ln, name))
     return crate_dir, finfo
 
 
